@@ -255,6 +255,30 @@ Proof.
   - cbn [rbind] in H. apply (X (a_exp a) H).
 Qed.
 
+Lemma increase_accept_unexpired st blk sender s c e st' rel :
+  step st blk sender (IncreaseAllowance (Some s) c e) = Ok (st', rel) ->
+  match e with Some x => is_expired x blk | None => is_expired (exp_of (Cw1Check.stored st s)) blk end = false.
+Proof.
+  intros H. cbn [step] in H.
+  destruct (negb (subkeys st)); [discriminate|]. destruct (negb (is_admin st sender)); [discriminate|].
+  cbn [validate rbind] in H. destruct (s =? sender); [discriminate|].
+  unfold Cw1Check.stored. destruct e as [x|].
+  - destruct (is_expired x blk); [|reflexivity]. cbn [rbind] in H. discriminate.
+  - destruct (get ordN (allowances st) s) as [a|]; cbn [exp_of]; [|reflexivity].
+    destruct (is_expired (a_exp a) blk); [|reflexivity]. cbn [rbind] in H. discriminate.
+Qed.
+
+Lemma decrease_accept_unexpired st blk sender s c e st' rel :
+  step st blk sender (DecreaseAllowance (Some s) c e) = Ok (st', rel) ->
+  match e with Some x => is_expired x blk | None => false end = false.
+Proof.
+  intros H. cbn [step] in H.
+  destruct (negb (subkeys st)); [discriminate|]. destruct (negb (is_admin st sender)); [discriminate|].
+  cbn [validate rbind] in H. destruct (s =? sender); [discriminate|].
+  destruct (get ordN (allowances st) s) as [a|]; [|discriminate]. destruct (is_expired (a_exp a) blk); [discriminate|].
+  destruct e as [x|]; [|reflexivity]. destruct (is_expired x blk); [|reflexivity]. cbn [rbind] in H. discriminate.
+Qed.
+
 Theorem s_c08_sound st blk sender o : Cw1Lemmas.Inv st ->
   match step st blk sender o with
   | Ok (st', _) => s_c08 st st' blk sender o true = 0
@@ -294,22 +318,25 @@ Proof.
   - (* IncreaseAllowance *)
     destruct (increase_spec _ _ _ _ _ _ _ _ _ HI E) as (_ & _ & _ & s & -> & Hne & _ & _ & _ & _ & A4 & A5).
     unfold s_c08. cbn [negb]. rewrite (unchanged_except_of st st' s _ A4). cbn [negb].
+    rewrite (increase_accept_unexpired _ _ _ _ _ _ _ _ E).
     match goal with |- (if negb (forallb ?f ?l) then _ else _) = _ => assert (F: forallb f l = true) end.
     { apply forallb_forall. intros d' _. rewrite !amount_same.
       change (Cw1Check.stored st' s) with (Cw1Lemmas.stored st' s). rewrite ?amount_same. rewrite (A5 d').
       unfold live, Cw1Lemmas.stored, Cw1Check.stored. apply N.eqb_refl. }
     rewrite F. cbn [negb]. rewrite (increase_expiry _ _ _ _ _ _ _ _ E), exp_eqb_refl. reflexivity.
   - (* DecreaseAllowance *)
-    destruct (decrease_spec _ _ _ _ _ _ _ _ _ HI E) as (_ & _ & _ & s & a & -> & Hne & _ & Ga & _ & _ & _ & _ & A4 & A5).
+    destruct (decrease_spec _ _ _ _ _ _ _ _ _ HI E) as (_ & _ & _ & s & a & -> & Hne & _ & Ga & Ex & _ & _ & _ & A4 & A5).
     unfold s_c08. cbn [negb]. rewrite (unchanged_except_of st st' s _ A4). cbn [negb].
-    match goal with |- (if negb (forallb ?f ?l) then _ else _) = _ => assert (F: forallb f l = true) end.
+    rewrite (decrease_accept_unexpired _ _ _ _ _ _ _ _ E).
+    change (Cw1Lemmas.stored st s) with (Cw1Check.stored st s) in Ga.
+    match goal with |- context [negb (forallb ?f ?l)] => assert (F: forallb f l = true) end.
     { apply forallb_forall. intros d' _. rewrite !amount_same.
       change (Cw1Check.stored st' s) with (Cw1Lemmas.stored st' s). change (Cw1Check.stored st s) with (Cw1Lemmas.stored st s).
       rewrite ?amount_same. rewrite (A5 d'). apply N.eqb_refl. }
-    rewrite F. cbn [negb].
+    rewrite F. clear F. rewrite Ga, Ex. cbn [negb].
     pose proof (decrease_expiry _ _ _ _ _ _ _ _ a HI E Ga) as X.
     destruct (Cw1Check.stored st' s) as [x|]; [|reflexivity].
-    rewrite X. unfold Cw1Lemmas.stored in Ga. unfold Cw1Check.stored. rewrite Ga. cbn [exp_of]. rewrite exp_eqb_refl. reflexivity.
+    rewrite X. cbn [exp_of]. rewrite exp_eqb_refl. reflexivity.
   - (* SetPermissions *)
     destruct (set_permissions_spec _ _ _ _ _ _ _ E) as (_ & _ & _ & s & -> & _ & ->).
     unfold s_c08. cbn [negb]. rewrite unchanged_allow_eq by reflexivity. reflexivity.
